@@ -1665,6 +1665,12 @@ SDsetattr(int32       id,    /* IN: object ID */
         HGOTO_ERROR(DFE_ARGS, FAIL);
     }
 
+    /* in an HDF file the attribute becomes a vdata, whose name holds VSNAMELENMAX characters: a longer
+       name would come back truncated (and possibly duplicated) when the file is opened again */
+    if (handle != NULL && handle->file_type == HDF_FILE && strlen(name) > VSNAMELENMAX) {
+        HGOTO_ERROR(DFE_ARGS, FAIL);
+    }
+
     /* still no handle ? */
     if (handle == NULL) {
         HGOTO_ERROR(DFE_ARGS, FAIL);
